@@ -164,6 +164,14 @@ func (ms *Modules) resolveIdentities() []error {
 		}
 	}
 
+	// The lists of derived identities are built afresh in every run: what an
+	// earlier run attached stays valid only as long as every base statement
+	// still denotes the same identity, and modules loaded since may have
+	// changed that (e.g., a newer revision of an imported module).
+	for _, i := range ms.typeDict.identities.dict {
+		i.Identity.Values = nil
+	}
+
 	// Now, we want to create for all identities a view of all of their children.
 	// A child identity here means an inherited identity.
 	//
